@@ -69,6 +69,31 @@ pub fn gen_head(max_fields: u32) -> Vec<u8> {
     };
     eol(&mut h);
     for _ in 0..nf {
+        if gen::ratio(1, 8) {
+            // a long line (40-200 bytes), valid or not, with multi-byte UTF-8 sequences and
+            // stray high bytes at drawn positions: anything that cuts, pads or renders a
+            // line at a fixed byte offset must cope with every alignment
+            let with_colon = gen::ratio(2, 3);
+            if with_colon {
+                for _ in 0..1 + gen::below(8) {
+                    h.push(tchar());
+                }
+                h.push(b':');
+            }
+            let target = 40 + gen::below(160) as usize;
+            let start = h.len();
+            while h.len() - start < target {
+                match gen::below(8) {
+                    0 => h.extend_from_slice("\u{e9}".as_bytes()),
+                    1 => h.extend_from_slice("\u{20ac}".as_bytes()),
+                    2 => h.extend_from_slice("\u{1f600}".as_bytes()),
+                    3 => h.push(0x80 + gen::below(0x80) as u8),
+                    _ => h.push(0x21 + gen::below(0x7e - 0x21 + 1) as u8),
+                }
+            }
+            eol(&mut h);
+            continue;
+        }
         match gen::below(10) {
             0 => h.extend_from_slice(gen::pick(&[&b"content-length"[..], b"transfer-encoding", b"cookie", b"expect", b"content-type", b"Content-Length"])),
             _ => {
